@@ -21,19 +21,21 @@ pub fn gettime(clock_id: libc::clockid_t) -> Option<Result<libc::timespec, i32>>
         return None;
     }
     let mut s = sh.lock();
-    let p = s.cfg.clock_fail_ppm;
+    let frozen = s.frozen_by == Some(me);
+    let p = if frozen { 0 } else { s.cfg.clock_fail_ppm };
     if s.decide_p(K_CLOCKFAIL, p) {
         s.count("fault.clock_gettime_fail");
         s.log(me, EvKind::ClockFail, "", clock_id as u64, libc::EINVAL as u64, 0);
         return Some(Err(libc::EINVAL));
     }
     let m = s.now;
+    let mut src_instant = m;
     let v = match clock_id {
         libc::CLOCK_REALTIME | libc::CLOCK_REALTIME_COARSE => realtime_at(&mut s, m),
         libc::CLOCK_MONOTONIC_COARSE => {
             // cross-CPU lag: the coarse clock's value as of up to `clock_lag_max_ns` earlier
             let mut src = m;
-            let p = s.cfg.clock_lag_ppm;
+            let p = if frozen { 0 } else { s.cfg.clock_lag_ppm };
             if s.decide_p(K_LAG, p) {
                 let steps = 16u32;
                 let k = 1 + s.decide_n(K_LAGMAG, steps) as i64;
@@ -41,11 +43,13 @@ pub fn gettime(clock_id: libc::clockid_t) -> Option<Result<libc::timespec, i32>>
                 src = m - lag;
                 s.count("fault.clock_lag");
             }
+            src_instant = src;
             let t = s.cfg.tick_ns.max(1);
             src.div_euclid(t) * t
         }
         _ => m,
     };
-    s.log(me, EvKind::ClockRead, "", clock_id as u64, v as u64, m as u64);
+    // c = the instant whose clock value was served (differs from `at` for a lagged coarse read)
+    s.log(me, EvKind::ClockRead, "", clock_id as u64, v as u64, src_instant as u64);
     Some(Ok(to_ts(v)))
 }
